@@ -478,9 +478,11 @@ fn main() {
     //     every neighbour count, every index, linear kernel; single + complete linkage on the dense kernel, all criteria
     let maxn = if thorough { 5 } else { 4 };
     for n in 2..=maxn {
-        let total = 4u64.pow(n as u32);
+        // coordinates {0,1,2} for the largest size (all tie patterns of the distances 0, 1, 2), {0,1,2,3} below it
+        let base: u64 = if n == maxn { 3 } else { 4 };
+        let total = base.pow(n as u32);
         for code in 0..total {
-            let x: Vec<Vec<f64>> = (0..n).map(|i| vec![((code >> (2 * i)) & 3) as f64]).collect();
+            let x: Vec<Vec<f64>> = (0..n).map(|i| vec![((code / base.pow(i as u32)) % base) as f64]).collect();
             let mut r = rng.fork();
             one_case(&mut out, id, &mut r, &x, "exhaustive1d", KM::Gauss(2.0), None, &[0, 1], 1000, true);
             id += 1;
@@ -494,7 +496,7 @@ fn main() {
     }
 
     // (b) structured random
-    let ndatasets = if thorough { 600 } else { 72 };
+    let ndatasets = if thorough { 400 } else { 72 };
     let maxn = if thorough { 18 } else { 13 };
     let fams = ["lattice", "dyadic", "doubles", "line", "duplicates", "outlier"];
     for _ in 0..ndatasets {
@@ -531,5 +533,5 @@ fn main() {
     // (c) malformed
     malformed(&mut out, &mut id);
 
-    out.finish("exhaustive: all 1-D point sets over {0,1,2,3} with 2..4 (thorough: 5) points x all neighbour counts x 3 indices; random: 6 data families (integer lattice, dyadic blobs, arbitrary doubles, equally spaced line, few distinct points, groups with an outlier) x kernel method (linear / Gaussian / polynomial) x dense or sparse(k, index) x linkage methods x all cluster counts 1..n+1 and thresholds at/next to/between/beyond the dendrogram heights; a case is non-trivial when it has >= 3 points of which >= 2 distinct; distinct = distinct (data, kernel, kind, linkage) hashes");
+    out.finish("exhaustive: all 1-D point sets over {0,1,2,3} with 2..3 points and over {0,1,2} with 4 points (thorough: {0,1,2,3} up to 4 points, {0,1,2} with 5) x all neighbour counts x 3 indices; random: 6 data families (integer lattice, dyadic blobs, arbitrary doubles, equally spaced line, few distinct points, groups with an outlier) x kernel method (linear / Gaussian / polynomial) x dense or sparse(k, index) x linkage methods x all cluster counts 1..n+1 and thresholds at/next to/between/beyond the dendrogram heights; a case is non-trivial when it has >= 3 points of which >= 2 distinct; distinct = distinct (data, kernel, kind, linkage) hashes");
 }
